@@ -692,23 +692,36 @@ impl Database {
             },
             key => {
                 {
-                    if let Some(value) = self.get_value(key.clone()) {
+                    // The look-up and the removal happen under one write lock: a write that lands
+                    // in between must not be replaced by a tombstone built from the older entry
+                    #[cfg(feature = "verif_hooks")]
+                    crate::verif::yield_point("remove_value:map:write");
+                    let mut db = self.map.write().unwrap();
+                    let current = db.get(&key).map(|value| {
+                        (
+                            value.state,
+                            value.version,
+                            value.value_disk_addr,
+                            value.key_disk_addr,
+                            value.opp_id,
+                        )
+                    });
+                    if let Some((state, version, value_disk_addr, key_disk_addr, opp_id)) = current
+                    {
                         // If deleted before the key is in disk remove direct from memory
-                        if value.state == ValueStatus::New {
-                            #[cfg(feature = "verif_hooks")]
-                            crate::verif::yield_point("remove_value:map:write");
-                            let mut db = self.map.write().unwrap();
+                        if state == ValueStatus::New {
                             db.remove(&key);
                         } else {
-                            // value.
-                            self.set_value_version(
-                                &key,
-                                &String::from("<Empty>"),
-                                value.version.saturating_add(1),
-                                ValueStatus::Deleted,
-                                value.value_disk_addr,
-                                value.key_disk_addr,
-                                value.opp_id,
+                            db.insert(
+                                key.clone(),
+                                Value {
+                                    value: String::from("<Empty>"),
+                                    version: version.saturating_add(1),
+                                    state: ValueStatus::Deleted,
+                                    value_disk_addr,
+                                    key_disk_addr,
+                                    opp_id,
+                                },
                             );
                         }
                     }
